@@ -165,3 +165,18 @@ MUTATIONS += [
     ("exposed-prefix-match-anywhere", ["C06"], P, '        plain |= config["allow_exposed_attrs"] and name.startswith(prefix)', '        plain |= config["allow_exposed_attrs"] and prefix in name'),
     ("hook-lookup-on-instance", ["C06"], P, "        accessor = getattr(type(obj), overrider, None)", "        accessor = getattr(obj, overrider, None)"),
 ]
+
+CL = "rpyc/utils/classic.py"
+MUTATIONS += [
+    # ---- C20: upload / download
+    ("download-reads-chunk-minus-one-loses-last", ["C20"], CL, "                buf = rf.read(chunk_size)\n                if not buf:\n                    break\n                lf.write(buf)",
+     "                buf = rf.read(chunk_size)\n                if len(buf) < chunk_size:\n                    break\n                lf.write(buf)"),
+    ("upload-filter-inverted", ["C20"], CL, "    for fn in os.listdir(localpath):\n        if not filter or filter(fn):", "    for fn in os.listdir(localpath):\n        if not filter or not filter(fn):"),
+    ("download-filter-files-only", ["C20"], CL, "    for fn in conn.modules.os.listdir(remotepath):\n        if not filter or filter(fn):",
+     "    for fn in conn.modules.os.listdir(remotepath):\n        if not filter or filter(fn) or conn.modules.os.path.isdir(conn.modules.os.path.join(remotepath, fn)):"),
+    ("upload-empty-dirs-not-created", ["C20"], CL, "    if not conn.modules.os.path.isdir(remotepath):\n        conn.modules.os.makedirs(remotepath)\n    for fn in os.listdir(localpath):",
+     "    if os.listdir(localpath) and not conn.modules.os.path.isdir(remotepath):\n        conn.modules.os.makedirs(remotepath)\n    for fn in os.listdir(localpath):"),
+    ("upload-text-mode-remote", ["C20"], CL, 'with conn.builtin.open(remotepath, "wb") as rf:', 'with conn.builtin.open(remotepath, "w", encoding="latin1", newline="\\n") as rf:'),
+    ("download-wrong-join", ["C20"], CL, "            lfn = os.path.join(localpath, fn)\n            download(", "            lfn = os.path.join(localpath, fn.strip())\n            download("),
+    ("upload-invalid-path-silent", ["C20"], CL, '        if not ignore_invalid:\n            raise ValueError("cannot upload %r" % (localpath,))', '        if not ignore_invalid and filter:\n            raise ValueError("cannot upload %r" % (localpath,))'),
+]
